@@ -114,6 +114,7 @@ func (c *clientStream) Context() context.Context {
 }
 
 func (c *clientStream) SendMsg(m any) error {
+	m = copyOfMessage(m)
 	select {
 	case <-c.ctx.Done():
 		return c.closeErrLocked()
@@ -188,6 +189,7 @@ func (s *serverStream) Context() context.Context {
 
 func (s *serverStream) SendMsg(m any) error {
 	s.sendHeaderIfNeeded()
+	m = copyOfMessage(m)
 	select {
 	case <-s.ctx.Done():
 		return s.closeErrLocked()
@@ -211,6 +213,15 @@ func (s *serverStream) RecvMsg(m any) error {
 func (s *serverStream) sendHeaderIfNeeded() {
 	// ignore error, SendHeader has no side effects if the headers have already been sent
 	_ = s.SendHeader(nil)
+}
+
+// copyOfMessage returns what is handed to the other side for m: like a real connection, which serialises the message
+// before Send returns, the receiver gets its own copy and the sender is free to reuse m straight away.
+func copyOfMessage(m any) any {
+	if pm, ok := m.(proto.Message); ok {
+		return proto.Clone(pm)
+	}
+	return m
 }
 
 // works like proto.Merge but allows messages with different descriptors by performing a marshal/unmarshal
